@@ -32,7 +32,14 @@ func (c exactEqualsComparator) eq(a, b Coordinates) bool {
 		return false
 	}
 	asb := a.XY.Sub(b.XY)
-	if asb.lengthSq() > c.toleranceSq {
+	if c.toleranceSq == 0 {
+		// Without a tolerance, XY must match exactly. The squared distance
+		// can't be used for that, because it underflows to zero for tiny (but
+		// non-zero) differences.
+		if asb != (XY{}) {
+			return false
+		}
+	} else if asb.lengthSq() > c.toleranceSq {
 		return false
 	}
 	if a.Type.Is3D() && a.Z != b.Z {
